@@ -167,6 +167,10 @@ pub struct Scenario {
     /// sequential engine: when present, main runs this call list against the reference
     /// model instead of starting threads
     pub seq: Option<Vec<crate::seq::SeqCall>>,
+    /// C04 add-on (0 = off): a second, independent queue carrying a payload WITHOUT drop
+    /// glue (`pod.rs`), one producer and one consumer task next to the scenario's threads.
+    /// bits 0..4 requested capacity, 4..8 receive path, 8..16 number of values, 16 flavour
+    pub pod: u32,
 }
 
 impl Scenario {
@@ -192,6 +196,7 @@ impl Scenario {
             trap_thread: None,
             tags: Vec::new(),
             seq: None,
+            pod: 0,
         }
     }
     pub fn digest(&self) -> u64 {
@@ -448,6 +453,7 @@ impl Scenario {
                 },
             )
             .set("trap_thread", match self.trap_thread { None => J::Null, Some(t) => J::UInt(t as u64) })
+            .set("pod", J::UInt(self.pod as u64))
             .set("tags", J::Arr(self.tags.iter().map(|t| J::str(t)).collect()))
             .set(
                 "seq",
@@ -519,6 +525,7 @@ impl Scenario {
                 _ => None,
             },
             trap_thread: j.get("trap_thread").and_then(|x| x.as_u64()).map(|x| x as u32),
+            pod: j.get("pod").and_then(|x| x.as_u64()).unwrap_or(0) as u32,
             tags: j
                 .get("tags")
                 .and_then(|x| x.as_arr())
